@@ -167,7 +167,7 @@ PROPS["C13"] = {
     "assumptions": _STREAM_ASSUME,
     "not_covered": [
         "round-trip direction decode(encode(x)) == x (needs prefix-freeness lemmas per type)",
-        "String, [T;N], Program, PublicKey/Signature impls and derived enums (declared opaque with an assumed Streamable contract)",
+        "[T;N], PublicKey/Signature impls and derived enums (declared opaque with an assumed Streamable contract); String and Program are proved in unit streamable_handwritten and assumed, with that contract, where they occur as fields elsewhere",
         "derive(Streamable) impls outside chia-protocol (chia-consensus owned conditions, chia-datalayer)",
     ],
 }
@@ -180,7 +180,7 @@ PROPS["C14"] = {
                    V("streamable_handwritten"), N("native_pos_v2_hash", "pos_v2_hash")],
     "assumptions": _STREAM_ASSUME,
     "not_covered": [
-        "String, [T;N], Program (serialized_length_from_bytes), BLS element decoders",
+        "[T;N], BLS element decoders; clvmr serialized_length_from_bytes (uninterpreted: Program::parse is proved to consume exactly the length it reports, after checking it against the buffer)",
         "derive(Streamable) impls outside chia-protocol",
     ],
 }
